@@ -949,8 +949,8 @@ func showTimeInJS(tt time.Time) string {
 		panic("not representable year in JavaScript")
 	}
 	ms := int64(tt.Nanosecond()) / int64(time.Millisecond)
-	name, offset := tt.Zone()
-	if name == "UTC" {
+	_, offset := tt.Zone()
+	if offset == 0 {
 		format := `new Date("%0.4d-%0.2d-%0.2dT%0.2d:%0.2d:%0.2d.%0.3dZ")`
 		if y < 0 || y > 9999 {
 			format = `new Date("%+0.6d-%0.2d-%0.2dT%0.2d:%0.2d:%0.2d.%0.3dZ")`
